@@ -607,6 +607,7 @@ type FuncContract struct {
 	CallGhost []Clause // "call f#k ghost name = expr"
 	After     []Clause // "after f#k ghost $x = expr" : ghost assignment right after a call site
 	Entry     []Clause // "entry ghost $x = expr"     : ghost assignment at function entry
+	Exit      []Clause // "exit ghost $x = expr"      : ghost assignment at every return, before the postconditions
 	Asserts  []Clause
 }
 
@@ -655,7 +656,7 @@ func NewContracts() *Contracts {
 var clauseKeywords = map[string]bool{
 	"requires": true, "ensures": true, "modifies": true, "loop": true, "decreases": true,
 	"abstract": true, "mode": true, "reveal": true, "use": true, "ghost": true, "panics": true,
-	"props": true, "call": true, "pure": true, "assert": true, "opt": true, "after": true, "entry": true,
+	"props": true, "call": true, "pure": true, "assert": true, "opt": true, "after": true, "entry": true, "exit": true,
 }
 
 // ParseContractFile reads //@ lines of a file.
@@ -1172,6 +1173,19 @@ func parseClause(fc *FuncContract, s string, pos string) error {
 			return err
 		}
 		fc.Entry = append(fc.Entry, Clause{Kind: "entry", Name: strings.TrimSpace(kv[0]), Src: kv[1], E: e, Pos: pos})
+	case "exit":
+		if !strings.HasPrefix(rest, "ghost ") {
+			return fmt.Errorf("exit ghost $x = e")
+		}
+		kv := strings.SplitN(rest[6:], "=", 2)
+		if len(kv) != 2 {
+			return fmt.Errorf("exit ghost $x = e")
+		}
+		e, err := ParseExpr(kv[1])
+		if err != nil {
+			return err
+		}
+		fc.Exit = append(fc.Exit, Clause{Kind: "exit", Name: strings.TrimSpace(kv[0]), Src: kv[1], E: e, Pos: pos})
 	case "props":
 		fc.Props = append(fc.Props, strings.Fields(rest)...)
 	case "abstract", "mode", "reveal", "use", "panics", "pure", "opt":
